@@ -233,7 +233,7 @@ impl Prop for C06 {
         ]
     }
     fn required_classes(&self, _tier: Tier) -> Vec<String> {
-        let mut v: Vec<String> = ["dates-where-members-disagree-or-settlement-blocks", "named:with-pipe", "named:without-pipe", "named:mixed-case", "rejected:unknown-name", "rejected:typo", "rejected:two-or-more-pipes"]
+        let mut v: Vec<String> = ["dates-where-members-disagree-or-settlement-blocks", "named:with-pipe", "named:without-pipe", "named:mixed-case", "named:same-calendars-redistributed-around-the-pipe", "rejected:unknown-name", "rejected:typo", "rejected:two-or-more-pipes"]
             .iter()
             .map(|s| s.to_string())
             .collect();
@@ -256,7 +256,7 @@ impl Prop for C06 {
         tier.pick(5_000_000, 300_000_000)
     }
     fn rule(&self) -> String {
-        "UnionCal definition: every date 1970-2200 (84371 dates) of unions built from all ordered pairs of built-ins (thorough; quick: each built-in paired with a rotating partner) and seeded random selections of 1-4 members x 0-3 settlement calendars from built-ins and random Cals, against the conjunction of the members' own predicates. NamedCal: name strings rendered from random selections (random letter case, ',' and '|') against the explicit UnionCal on every date. Rejections: random unknown words, one-letter typos of valid names, 2-4 pipes. Equality: near-miss pairs (equal behaviour from different structure; one-date differences incl. the two range end points; swapped member/settlement lists) in all kind pairings and both operand orders against date-by-date agreement computed by the harness. distinct_nontrivial = distinct calendars / pairs / strings.".into()
+        "UnionCal definition: every date 1970-2200 (84371 dates) of unions built from all ordered pairs of built-ins (thorough; quick: each built-in paired with a rotating partner) and seeded random selections of 1-4 members x 0-3 settlement calendars from built-ins and random Cals, against the conjunction of the members' own predicates. NamedCal: name strings rendered from random selections (random letter case, ',' and '|') against the explicit UnionCal on every date; each name is followed, in the same process, by names made of the same calendars distributed differently around the pipe, each judged against its own parts. Rejections: random unknown words, one-letter typos of valid names, 2-4 pipes. Equality: near-miss pairs (equal behaviour from different structure; one-date differences incl. the two range end points; swapped member/settlement lists) in all kind pairings and both operand orders against date-by-date agreement computed by the harness. distinct_nontrivial = distinct calendars / pairs / strings.".into()
     }
     fn assumptions(&self) -> Vec<String> {
         vec![
@@ -304,59 +304,101 @@ impl Prop for C06 {
                 let ns = if rng.bool() { 0 } else { 1 + rng.usize(2) };
                 let mn: Vec<&str> = (0..nm).map(|_| BUILTIN[rng.usize(14)]).collect();
                 let sn: Vec<&str> = (0..ns).map(|_| BUILTIN[rng.usize(14)]).collect();
-                let mut s = mn.join(",");
+                // the name itself, then - in the same process, one request after the other - names made of the same
+                // calendars distributed differently around the pipe: each must mean ITS OWN parts, whatever was
+                // resolved before it
+                let mut variants: Vec<(Vec<&str>, Vec<&str>)> = vec![(mn.clone(), sn.clone())];
                 if ns > 0 {
-                    s.push('|');
-                    s.push_str(&sn.join(","));
+                    variants.push((sn.clone(), mn.clone()));
+                    let mut a = mn.clone();
+                    a.push(sn[0]);
+                    variants.push((a, sn[1..].to_vec()));
                 }
-                let mixed = rng.chance(0.6);
-                let rendered = if mixed { random_case(&s, rng) } else { s.clone() };
-                ctx.crumb(&format!("named {}", rendered));
-                ctx.class(if ns > 0 { "named:with-pipe" } else { "named:without-pipe" });
-                if rendered != s {
-                    ctx.class("named:mixed-case");
+                if nm >= 2 {
+                    let mut b = vec![mn[nm - 1]];
+                    b.extend(sn.iter().cloned());
+                    variants.push((mn[..nm - 1].to_vec(), b));
                 }
-                let named = match NamedCal::try_new(&rendered) {
-                    Ok(n) => n,
-                    Err(_) => {
-                        ctx.violation(&format!("C06|named-rejected|{}", if rendered != s { "mixed-case" } else { "lower-case" }), json!({"name": rendered}));
+                // ... and the name's comma-separated pieces in another order (the piece holding the pipe moves as one:
+                // "a,b|c,d" -> "d,b|c,a"), which also moves calendars from one side of the pipe to the other
+                let joined: String = if ns > 0 { format!("{}|{}", mn.join(","), sn.join(",")) } else { mn.join(",") };
+                let pieces: Vec<&str> = joined.split(',').collect();
+                let mut reordered: Vec<String> = vec![];
+                if pieces.len() >= 2 {
+                    let mut rv = pieces.clone();
+                    rv.reverse();
+                    reordered.push(rv.join(","));
+                    let mut rot = pieces.clone();
+                    rot.rotate_left(1);
+                    reordered.push(rot.join(","));
+                }
+                let reordered: Vec<String> = reordered.into_iter().filter(|x| *x != joined).collect();
+                for nme in reordered.iter() {
+                    let mut halves = nme.split('|');
+                    let left: Vec<&str> = halves.next().unwrap_or("").split(',').collect();
+                    let right: Vec<&str> = halves.next().map(|h| h.split(',').collect()).unwrap_or_default();
+                    variants.push((left, right));
+                }
+                let mut rendered = String::new();
+                for (vi, (mn, sn)) in variants.iter().enumerate() {
+                    let (nm, ns) = (mn.len(), sn.len());
+                    if vi > 0 {
+                        ctx.class("named:same-calendars-redistributed-around-the-pipe");
+                    }
+                    let mut s = mn.join(",");
+                    if ns > 0 {
+                        s.push('|');
+                        s.push_str(&sn.join(","));
+                    }
+                    let mixed = rng.chance(0.6);
+                    rendered = if mixed { random_case(&s, rng) } else { s.clone() };
+                    ctx.crumb(&format!("named {}", rendered));
+                    ctx.class(if ns > 0 { "named:with-pipe" } else { "named:without-pipe" });
+                    if rendered != s {
+                        ctx.class("named:mixed-case");
+                    }
+                    let named = match NamedCal::try_new(&rendered) {
+                        Ok(n) => n,
+                        Err(_) => {
+                            ctx.violation(&format!("C06|named-rejected|{}", if rendered != s { "mixed-case" } else { "lower-case" }), json!({"name": rendered}));
+                            return;
+                        }
+                    };
+                    let parts = |names: &[&str]| -> Option<Vec<Cal>> { names.iter().map(|n| get_calendar_by_name(n).ok()).collect() };
+                    let (pm, ps) = match (parts(mn), parts(sn)) {
+                        (Some(a), Some(b)) => (a, b),
+                        _ => {
+                            ctx.violation("C06|name-unresolved", json!({"names": mn}));
+                            return;
+                        }
+                    };
+                    let explicit = UnionCal::new(pm, if ns > 0 { Some(ps) } else { None });
+                    let mut diff = None;
+                    for z in Z_1970..=z_2200_end() {
+                        let dt = to_ndt(z);
+                        ctx.eval(2);
+                        if named.is_bus_day(&dt) != explicit.is_bus_day(&dt) || named.is_settlement(&dt) != explicit.is_settlement(&dt) {
+                            diff = Some(z);
+                            break;
+                        }
+                    }
+                    ctx.asserted(2 * (z_2200_end() + 1) as u64);
+                    ctx.distinct(hash_u64s(&[crate::util::hash_str(&s)]));
+                    if let Some(z) = diff {
+                        ctx.violation(
+                            &format!("C06|named-vs-explicit|{}|{}", if ns > 0 { "with-pipe" } else { "without-pipe" }, if nm > 1 || ns > 1 { "multi" } else { "single" }),
+                            json!({"name": rendered, "members": mn, "settlement": sn, "first_differing_date": fmt_z(z),
+                                   "named": {"bus": named.is_bus_day(&to_ndt(z)), "settle": named.is_settlement(&to_ndt(z))},
+                                   "explicit": {"bus": explicit.is_bus_day(&to_ndt(z)), "settle": explicit.is_settlement(&to_ndt(z))}}),
+                        );
                         return;
                     }
-                };
-                let parts = |names: &[&str]| -> Option<Vec<Cal>> { names.iter().map(|n| get_calendar_by_name(n).ok()).collect() };
-                let (pm, ps) = match (parts(&mn), parts(&sn)) {
-                    (Some(a), Some(b)) => (a, b),
-                    _ => {
-                        ctx.violation("C06|name-unresolved", json!({"names": mn}));
+                    if !check_container(ctx, &named, &rateslib::calendars::CalType::NamedCal(named.clone()), "NamedCal", &json!({"name": rendered})) {
                         return;
                     }
-                };
-                let explicit = UnionCal::new(pm, if ns > 0 { Some(ps) } else { None });
-                let mut diff = None;
-                for z in Z_1970..=z_2200_end() {
-                    let dt = to_ndt(z);
-                    ctx.eval(2);
-                    if named.is_bus_day(&dt) != explicit.is_bus_day(&dt) || named.is_settlement(&dt) != explicit.is_settlement(&dt) {
-                        diff = Some(z);
-                        break;
-                    }
+                    // and they compare equal, both ways
+                    check_eq(ctx, &K::N(named), &K::U(explicit), "named-vs-explicit-union", json!({"name": rendered}));
                 }
-                ctx.asserted(2 * (z_2200_end() + 1) as u64);
-                ctx.distinct(hash_u64s(&[crate::util::hash_str(&s)]));
-                if let Some(z) = diff {
-                    ctx.violation(
-                        &format!("C06|named-vs-explicit|{}|{}", if ns > 0 { "with-pipe" } else { "without-pipe" }, if nm > 1 || ns > 1 { "multi" } else { "single" }),
-                        json!({"name": rendered, "members": mn, "settlement": sn, "first_differing_date": fmt_z(z),
-                               "named": {"bus": named.is_bus_day(&to_ndt(z)), "settle": named.is_settlement(&to_ndt(z))},
-                               "explicit": {"bus": explicit.is_bus_day(&to_ndt(z)), "settle": explicit.is_settlement(&to_ndt(z))}}),
-                    );
-                    return;
-                }
-                if !check_container(ctx, &named, &rateslib::calendars::CalType::NamedCal(named.clone()), "NamedCal", &json!({"name": rendered})) {
-                    return;
-                }
-                // and they compare equal, both ways
-                check_eq(ctx, &K::N(named), &K::U(explicit), "named-vs-explicit-union", json!({"name": rendered}));
                 ctx.sample("named", || json!({"name": rendered, "members": mn, "settlement": sn}));
             }
             3 => {
